@@ -9,6 +9,8 @@ RULE_TEXT = {
     'G3-protocol': 'every exit has a definite _status; failure => _result is an error function; '
                    'success => it is not',
     'G5-local-stores': 'emitted rule code stores only through locals of the rule function',
+    'G6-temp-unique': 'a scratch local that is live across a sub-expression is a register, a user name or a temporary '
+                      'numbered by the builder (unique per instance)',
     'S-flow': 'position provenance at child starts and success exits follows the PEG table',
     'S-value': 'value provenance at success exits follows the PEG table',
     'S-choice-order': 'option i+1 is reachable only when options 1..i failed; first success commits',
